@@ -510,11 +510,19 @@ def task_bounds(systems):
         comps = {n: {e: a for e, a in rsys.substances[n].composition.items() if e != 0} for n in names}
         elems = sorted(set().union(*[set(d) for d in comps.values()]))
         full = {n: dict(rsys.substances[n].composition) for n in names}  # incl. the charge entry
+        alt_ok = []
         cbv0 = rsys.composition_balance_vectors()
 
         def fn():
             arr = rsys.as_per_substance_array(c0, dtype=object)
             back = rsys.as_per_substance_dict(arr)
+            # other kinds of per-substance input: a mapping in another key order, a defaultdict, a plain list / tuple in substance order
+            from collections import OrderedDict as _OD, defaultdict as _dd
+            alts = [rsys.as_per_substance_array(_OD(reversed(list(c0.items()))), dtype=object),
+                    rsys.as_per_substance_array(_dd(lambda: 0, c0), dtype=object),
+                    rsys.as_per_substance_array([c0[n_] for n_ in names], dtype=object),
+                    rsys.as_per_substance_array(tuple(c0[n_] for n_ in names), dtype=object)]
+            alt_ok.append(alts)
             ub = rsys.upper_conc_bounds(c0, min_=min, dtype=object)
             # history: a query must leave the system as it was (the substances are shared with every other view of the system)
             untouched = {n: dict(rsys.substances[n].composition) for n in names} == full and rsys.composition_balance_vectors() == cbv0
@@ -524,9 +532,9 @@ def task_bounds(systems):
             if p.kind == "exc":
                 return False
             ub, arr, back, untouched = p.value
-            if not untouched:
+            if not untouched or not alt_ok or any(len(a_) != len(names) for a_ in alt_ok[-1]):
                 return False
-            conds = []
+            conds = [eq_term(a_[i_], c0[n_]) for a_ in alt_ok[-1] for i_, n_ in enumerate(names)]
             if len(arr) != len(names) or list(back) != names:
                 return False
             for i, n in enumerate(names):
